@@ -32,7 +32,7 @@ LEVEL_TEXT += (" At the level of the assignment pass, for every kind of connecti
 LEVEL_NOTE = ("Partial: the proved invariant covers pool + direct HTTP/1.1 connections with scope cancellation; HTTP/2, proxy and SOCKS establishment "
               "paths and one-shot native cancellation are covered by the sweeps only (their defects are listed as known findings). The model is tied to "
               "the code at the pool-pass level by lock-step runs and otherwise through the same oracles, not by full trace comparison.")
-TECHNIQUE = "Lean 4 proof (inductive invariant of a transition system over all interleavings) + exhaustive fault/cancellation sweeps with direct oracles"
+TECHNIQUE = "Lean 4 proof (inductive invariant of a transition system over all interleavings) + translated wrapper predicates (proved, exhaustively lock-stepped) + HTTP/2 life-cycle composition with the pass + exhaustive fault/cancellation sweeps with direct oracles"
 DESIGN_REF = "§5 C05"
 
 
